@@ -6,6 +6,7 @@ unconditional.  Own module: importing the C10 files into Props/C12.lean makes `R
 -/
 import AutomataVerif.Props.C12
 import AutomataVerif.Proofs.RxGnfaGlue
+import AutomataVerif.Proofs.GnfaReValidate
 
 namespace AV.Props.C12
 open AV AV.GNFA AV.GnfaSpec
@@ -93,6 +94,118 @@ example : (AV.Rx.fromRegex ['(', 'a', 'b', ')', '*'] (some exDFA.syms)).toOption
     (fun N => (N.accepts [], N.accepts ['a', 'b'], N.accepts ['a'], N.accepts ['a', 'b', 'a', 'b'])) =
     some (exDFA.accepts [], exDFA.accepts ['a', 'b'], exDFA.accepts ['a'],
       exDFA.accepts ['a', 'b', 'a', 'b']) := by decide
+
+/-! ## One model of `re._validate`
+
+`Props/C12.lean` instantiates the validator parameter of `GNFA.validate` / `from_dfa` / `from_nfa`
+with `simpleRxValid`, a stand-alone character-level model written before the C10/C11 model of
+`regex.validate` existed.  `reValidate` (Model/GNFARe.lean) is `re._validate` on top of C10's
+`lex` + `validateTokens`; it is what the driver `drv_gnfa` runs.  The two are the same function on
+every string without `{`, hence the constructors are the same functions on every alphabet
+without `{` (in particular on every literal alphabet), and the end-to-end theorems hold verbatim
+for the shared model. -/
+
+/-- **C12_one_validator_model** — `simpleRxValid` is `re._validate` of the C10/C11 lexer and
+validator model on every string without `{` (well-formed or not; same verdict, same escaping
+`LexerError`), and for an alphabet without `{` the two instances of `from_dfa` / `from_nfa` are
+the same function. -/
+theorem C12_one_validator_model :
+    (∀ s : Str, '{' ∉ s → simpleRxValid s =
+      match AV.Rx.validate s with
+      | .ok _ => .ok true
+      | .error (.lib .invalidRegexError) => .ok false
+      | .error e => .error e) ∧
+    (∀ {σ : Type} [DecidableEq σ] (natName : Nat → σ) (d : DFA σ Char), '{' ∉ d.syms →
+      fromDFA simpleRxValid natName d = fromDFA reValidate natName d) ∧
+    (∀ {σ : Type} [DecidableEq σ] (natName : Nat → σ) (n : NFA σ Char), '{' ∉ n.syms →
+      fromNFA simpleRxValid natName n = fromNFA reValidate natName n) :=
+  ⟨ReValidate.simpleRxValid_eq_of_validate, fun natName d h => ReValidate.fromDFA_congr natName d h,
+    fun natName n h => ReValidate.fromNFA_congr natName n h⟩
+
+theorem not_mem_brace_of_isLit {syms : List Char} (hlit : ∀ a ∈ syms, IsLit a) : '{' ∉ syms :=
+  fun h => (hlit '{' h).1 (by decide)
+
+theorem reValidate_of_chars {syms : List Char} (hlit : ∀ a ∈ syms, IsLit a) {s : Str}
+    (hch : ∀ c ∈ s, c ∈ syms ++ ['*', '|', '(', ')', '?']) (hv : simpleRxValid s = .ok true) :
+    reValidate s = .ok true := by
+  rw [← ReValidate.simpleRxValid_eq_reValidate s ?_]
+  · exact hv
+  · intro h
+    rcases List.mem_append.mp (hch '{' h) with h' | h'
+    · exact not_mem_brace_of_isLit hlit h'
+    · revert h'; decide
+
+/-- **C12_to_regex_re** — the English property, in both readings of "the parser accepts", for
+the single validator model: for every valid DFA / NFA with a non-empty language over literal
+symbols, `from_dfa` / `from_nfa` (validating with `re._validate` = C10's lexer and
+`validate_tokens`) succeed, and for every rip order `to_regex` returns a string `s` such that
+`re._validate(s)` is `True`, `NFA.from_regex(s)` compiles to exactly the source language, and
+`NFA.from_regex(s, input_symbols=Σ_source)` returns a valid NFA with the source's verdict on every
+word. -/
+theorem C12_to_regex_re {σ : Type} [DecidableEq σ] (natName : Nat → σ)
+    (hinj : Function.Injective natName) :
+    (∀ (d : DFA σ Char), d.validate = .ok () → (∀ kv ∈ d.trans, (akeys kv.2).Nodup) →
+      (∀ a ∈ d.syms, IsLit a) → (∃ w, d.accepts w = true) →
+      ∃ g, fromDFA reValidate natName d = .ok g ∧
+        ∀ (ord : Nat → List σ → List σ), (∀ k l x, x ∈ ord k l ↔ x ∈ l) →
+          ∃ s L N, toRegex g ord = .ok (some s) ∧ reValidate s = .ok true ∧
+            AV.Rx.GnfaGlue.compile s = some L ∧ (∀ w, w ∈ L ↔ d.accepts w = true) ∧
+            AV.Rx.fromRegex s (some d.syms) = .ok N ∧ N.validate = .ok () ∧
+            ∀ w, N.accepts w = d.accepts w) ∧
+    (∀ (n : NFA σ Char), n.validate = .ok () → (∀ kv ∈ n.trans, (akeys kv.2).Nodup) →
+      (∀ kv ∈ n.trans, ∀ e ∈ kv.2, e.2.Nodup) →
+      (∀ a ∈ n.syms, IsLit a) → (∃ w, n.accepts w = true) →
+      ∃ g, fromNFA reValidate natName n = .ok g ∧
+        ∀ (ord : Nat → List σ → List σ), (∀ k l x, x ∈ ord k l ↔ x ∈ l) →
+          ∃ s L N, toRegex g ord = .ok (some s) ∧ reValidate s = .ok true ∧
+            AV.Rx.GnfaGlue.compile s = some L ∧ (∀ w, w ∈ L ↔ n.accepts w = true) ∧
+            AV.Rx.fromRegex s (some n.syms) = .ok N ∧ N.validate = .ok () ∧
+            ∀ w, N.accepts w = n.accepts w) := by
+  constructor
+  · intro d hv hkeys hlit hne
+    obtain ⟨g, hg, hall⟩ := C12_dfa_alphabet natName hinj d hv hkeys hlit hne
+    obtain ⟨g1, hg1, hall1⟩ := (C12_to_regex_full natName hinj).1 d hv hkeys hlit hne
+    obtain ⟨g2, hg2, hall2⟩ := (C12_to_regex_explicit_alphabet natName hinj).1 d hv hkeys hlit hne
+    rw [hg] at hg1 hg2
+    cases hg1
+    cases hg2
+    rw [ReValidate.fromDFA_congr natName d (not_mem_brace_of_isLit hlit)] at hg
+    refine ⟨g, hg, fun ord hord => ?_⟩
+    obtain ⟨s, hs, hval, hch, _⟩ := hall ord hord
+    obtain ⟨s1, L, hs1, hL, hLw⟩ := hall1 ord hord
+    obtain ⟨s2, N, hs2, hN, hNv, hNw⟩ := hall2 ord hord
+    rw [hs] at hs1 hs2
+    cases hs1
+    cases hs2
+    exact ⟨s, L, N, hs, reValidate_of_chars hlit hch hval, hL, hLw, hN, hNv, hNw⟩
+  · intro n hv hkeys htgts hlit hne
+    obtain ⟨g, hg, hall⟩ := C12_nfa_alphabet natName hinj n hv hkeys htgts hlit hne
+    obtain ⟨g1, hg1, hall1⟩ := (C12_to_regex_full natName hinj).2 n hv hkeys htgts hlit hne
+    obtain ⟨g2, hg2, hall2⟩ :=
+      (C12_to_regex_explicit_alphabet natName hinj).2 n hv hkeys htgts hlit hne
+    rw [hg] at hg1 hg2
+    cases hg1
+    cases hg2
+    rw [ReValidate.fromNFA_congr natName n (not_mem_brace_of_isLit hlit)] at hg
+    refine ⟨g, hg, fun ord hord => ?_⟩
+    obtain ⟨s, hs, hval, hch, _⟩ := hall ord hord
+    obtain ⟨s1, L, hs1, hL, hLw⟩ := hall1 ord hord
+    obtain ⟨s2, N, hs2, hN, hNv, hNw⟩ := hall2 ord hord
+    rw [hs] at hs1 hs2
+    cases hs1
+    cases hs2
+    exact ⟨s, L, N, hs, reValidate_of_chars hlit hch hval, hL, hLw, hN, hNv, hNw⟩
+
+/-- Non-vacuity / the boundary of the agreement: on `{` the stand-alone model is wrong (it reads
+`{` as a literal) while the shared model runs the quantifier rule, as the code does:
+`re._validate("a{1,2}")` is `True` for both, but `"{|,|}"` — which `from_dfa` assembles for a DFA
+with the symbols `{ , }` on one edge — makes the real `int("|")` raise `ValueError`. -/
+example : simpleRxValid "{|,|}".toList = .ok true ∧
+    reValidate "{|,|}".toList = .error (.py .valueError) := by decide
+
+example : reValidate "(ab)*".toList = .ok true ∧ reValidate "(ab".toList = .ok false ∧
+    reValidate "a b".toList = .ok true ∧ reValidate ['a', '\n'] = .error (.lib .lexerError) := by
+  decide
 
 /-! ## The literal-alphabet hypothesis is necessary (open finding
 `C12:alphabet-has-reserved-regex-character`)
